@@ -1,4 +1,4 @@
-import Rare.Proofs.C09Den
+import Rare.Proofs.C09DenV
 import Rare.Spec.C09Frag
 import Rare.Proofs.C09C10Std
 import Rare.Proofs.C11
@@ -135,16 +135,16 @@ theorem dynFirst_of_startsWith {stage : Stage} {cargs : List Stage} (h : StartsW
 /-- The entry is correct: for argument stages denoting the argument trees (any semantics, any certificate),
     at an admissible arity and under the side condition, the builder returns a stage that computes `sem` of
     the argument values and (if `first`) is dynamic whenever its first argument is. -/
-def EntryOk (e : Entry) : Prop :=
-  ∀ (sem : Sem) (D : C09.Expr → Bool) (args : List C09.Expr) (cargs : List Stage), DenArgs sem D cargs args →
-    e.arity args.length = true → e.pre (evalTree (envC sem emptyCtx)) D args = true →
+def EntryOkV (e : Entry) : Prop :=
+  ∀ (val : Val) (D : C09.Expr → Bool) (args : List C09.Expr) (cargs : List Stage), DenArgsV val D cargs args →
+    e.arity args.length = true → e.pre ((fun a => val a emptyCtx)) D args = true →
     ∃ stage, Inst e.builder e.sem cargs stage ∧ (e.first = true → DynFirst stage cargs)
 
 /-- Entries without side condition whose proof only needs the argument stages to be total. -/
-theorem EntryOk.simple {e : Entry}
+theorem EntryOkV.simple {e : Entry}
     (h : ∀ cargs : List Stage, e.arity cargs.length = true → (∀ a ∈ cargs, Total a) →
-      ∃ stage, Inst e.builder e.sem cargs stage ∧ (e.first = true → StartsWith stage cargs)) : EntryOk e := by
-  intro sem D args cargs hden har _
+      ∃ stage, Inst e.builder e.sem cargs stage ∧ (e.first = true → StartsWith stage cargs)) : EntryOkV e := by
+  intro val D args cargs hden har _
   obtain ⟨stage, hi, hs⟩ := h cargs (by rw [hden.length]; exact har) hden.total
   refine ⟨stage, hi, fun hf => dynFirst_of_startsWith (hs hf) ?_⟩
   obtain ⟨vals, hv⟩ := total_vals emptyCtx cargs hden.total
@@ -165,7 +165,7 @@ theorem coalesce_run (ctx : Ctx) : ∀ (cargs : List Stage) (vals : List Bytes),
     · rfl
     · exact coalesce_run ctx rest vs hr
 
-theorem coalesce_ok : EntryOk coalesceE := EntryOk.simple fun cargs _ _ =>
+theorem coalesce_ok : EntryOkV coalesceE := EntryOkV.simple fun cargs _ _ =>
   ⟨kfCoalesce.go cargs, ⟨rfl, fun ctx vals h => coalesce_run ctx cargs vals h⟩, fun _ a rest hc => by
     subst hc; exact ⟨_, by rw [kfCoalesce.go]; rfl⟩⟩
 
@@ -178,7 +178,7 @@ theorem cmpGo_run (eq : Bytes → Bytes → Bytes) (ctx : Ctx) : ∀ (cargs : Li
     rw [Comp.bind_eq, run_bind_ok h0]
     exact cmpGo_run eq ctx rest vs _ hr
 
-theorem cmp_ok (eq : Bytes → Bytes → Bytes) : EntryOk (cmpE eq) := EntryOk.simple fun cargs har _ => by
+theorem cmp_ok (eq : Bytes → Bytes → Bytes) : EntryOkV (cmpE eq) := EntryOkV.simple fun cargs har _ => by
   match cargs, har with
   | a0 :: a1 :: rest, _ =>
     refine ⟨_, ⟨rfl, fun ctx vals h => ?_⟩, fun _ a r hc => ?_⟩
@@ -188,7 +188,7 @@ theorem cmp_ok (eq : Bytes → Bytes → Bytes) : EntryOk (cmpE eq) := EntryOk.s
       exact cmpGo_run eq ctx _ _ _ hr
     · cases hc; exact ⟨_, rfl⟩
 
-theorem not_ok : EntryOk notE := EntryOk.simple fun cargs har _ => by
+theorem not_ok : EntryOkV notE := EntryOkV.simple fun cargs har _ => by
   match cargs, har with
   | [a], _ =>
     refine ⟨_, ⟨rfl, fun ctx vals h => ?_⟩, fun _ a r hc => ?_⟩
@@ -207,7 +207,7 @@ theorem and_run (ctx : Ctx) : ∀ (cargs : List Stage) (vals : List Bytes),
     · rfl
     · exact and_run ctx rest vs hr
 
-theorem and_ok : EntryOk andE := EntryOk.simple fun cargs _ _ =>
+theorem and_ok : EntryOkV andE := EntryOkV.simple fun cargs _ _ =>
   ⟨kfAnd.go cargs, ⟨rfl, fun ctx vals h => and_run ctx cargs vals h⟩, fun _ a rest hc => by
     subst hc; exact ⟨_, by rw [kfAnd.go]; rfl⟩⟩
 
@@ -222,11 +222,11 @@ theorem or_run (ctx : Ctx) : ∀ (cargs : List Stage) (vals : List Bytes),
     · rfl
     · exact or_run ctx rest vs hr
 
-theorem or_ok : EntryOk orE := EntryOk.simple fun cargs _ _ =>
+theorem or_ok : EntryOkV orE := EntryOkV.simple fun cargs _ _ =>
   ⟨kfOr.go cargs, ⟨rfl, fun ctx vals h => or_run ctx cargs vals h⟩, fun _ a rest hc => by
     subst hc; exact ⟨_, by rw [kfOr.go]; rfl⟩⟩
 
-theorem if_ok : EntryOk ifE := EntryOk.simple fun cargs har _ => by
+theorem if_ok : EntryOkV ifE := EntryOkV.simple fun cargs har _ => by
   match cargs, har with
   | [c, t], _ =>
     refine ⟨_, ⟨rfl, fun ctx vals h => ?_⟩, fun _ a r hc => ?_⟩
@@ -247,7 +247,7 @@ theorem if_ok : EntryOk ifE := EntryOk.simple fun cargs har _ => by
       · exact he
     · cases hc; exact ⟨_, rfl⟩
 
-theorem unless_ok : EntryOk unlessE := EntryOk.simple fun cargs har _ => by
+theorem unless_ok : EntryOkV unlessE := EntryOkV.simple fun cargs har _ => by
   match cargs, har with
   | [c, t], _ =>
     refine ⟨_, ⟨rfl, fun ctx vals h => ?_⟩, fun _ a r hc => ?_⟩
@@ -274,7 +274,7 @@ theorem switch_run (ctx : Ctx) : ∀ (cargs : List Stage) (vals : List Bytes),
     · exact h1
     · exact switch_run ctx rest vs' hr'
 
-theorem switch_ok : EntryOk switchE := EntryOk.simple fun cargs har _ => by
+theorem switch_ok : EntryOkV switchE := EntryOkV.simple fun cargs har _ => by
   have hlen : ¬ cargs.length ≤ 1 := by simp only [switchE, decide_eq_true_eq] at har; omega
   refine ⟨kfSwitch.go cargs, ⟨by simp [switchE, kfSwitch, hlen, Rare.Expr.ok], fun ctx vals h => switch_run ctx cargs vals h⟩,
     fun _ a rest hc => ?_⟩
@@ -286,8 +286,8 @@ end FL
 
 /-! ### typed arguments (`evalTypedStage` / `mapTypedArgs`) -/
 
-theorem typed_den {α : Type} (parser : Bytes → Option α) {sem : Sem} {D : C09.Expr → Bool} {c : Stage} {a : C09.Expr}
-    (hden : Den sem D c a) (hpre : typedArg parser (evalTree (envC sem emptyCtx)) D a = true) :
+theorem typed_den {α : Type} (parser : Bytes → Option α) {val : Val} {D : C09.Expr → Bool} {c : Stage} {a : C09.Expr}
+    (hden : DenV val D c a) (hpre : typedArg parser ((fun a => val a emptyCtx)) D a = true) :
     ∃ t, evalTypedStage c parser = .ok (some t) ∧ (∀ ctx v, c.run ctx = .ok v → t.run ctx = .ok (parser v)) ∧
       ((∃ v, c.probe = .ok (v, false)) → t = c.bind fun v => .ret (parser v)) := by
   obtain ⟨v, b, hp, hv⟩ := probe_total (fun ctx => ⟨_, hden.run ctx⟩ : Total c)
@@ -298,7 +298,7 @@ theorem typed_den {α : Type} (parser : Bytes → Option α) {sem : Sem} {D : C0
       cases hd : D a with
       | false => rfl
       | true => obtain ⟨w, hw⟩ := hden.dyn hd; rw [hp] at hw; cases hw
-    have hval : evalTree (envC sem emptyCtx) a = v := by
+    have hval : (fun a => val a emptyCtx) a = v := by
       have := hden.run emptyCtx; rw [hv] at this; simpa using this.symm
     simp only [typedArg, hD, Bool.false_or, hval] at hpre
     cases hpv : parser v with
@@ -313,9 +313,9 @@ theorem typed_den {α : Type} (parser : Bytes → Option α) {sem : Sem} {D : C0
     refine ⟨c.bind fun v => .ret (parser v), by simp only [evalTypedStage, hp]; rfl, fun ctx v' h' => ?_, fun _ => rfl⟩
     rw [run_bind_ok h']; rfl
 
-theorem mapTyped_den {α : Type} (parser : Bytes → Option α) {sem : Sem} {D : C09.Expr → Bool} :
-    ∀ {cargs : List Stage} {args : List C09.Expr}, DenArgs sem D cargs args →
-      typedPre parser (evalTree (envC sem emptyCtx)) D args = true →
+theorem mapTyped_den {α : Type} (parser : Bytes → Option α) {val : Val} {D : C09.Expr → Bool} :
+    ∀ {cargs : List Stage} {args : List C09.Expr}, DenArgsV val D cargs args →
+      typedPre parser ((fun a => val a emptyCtx)) D args = true →
       ∃ typed, mapTypedArgs parser cargs = .ok (some typed) ∧
         (∀ (ctx : Ctx) (vals : List Bytes), cargs.map (·.run ctx) = vals.map .ok →
           typed.map (·.run ctx) = vals.map fun v => .ok (parser v)) ∧
@@ -365,8 +365,8 @@ theorem intRun_run (op : IntOp) (ctx : Ctx) (typed : List (Comp (Option Int))) (
       | none => rfl
       | some x => exact foldRun_run op ctx rest vs x h.2
 
-theorem int_ok (op : IntOp) : EntryOk (intE op) := by
-  intro sem D args cargs hden har hpre
+theorem int_ok (op : IntOp) : EntryOkV (intE op) := by
+  intro val D args cargs hden har hpre
   obtain ⟨typed, hty, hruns, hfirst⟩ := mapTyped_den atoi hden hpre
   have hlen : ¬ cargs.length < 2 := by rw [hden.length]; simp only [intE, decide_eq_true_eq] at har; omega
   have hb : intHelper op cargs = .ok ⟨some (intRun op typed), none⟩ := by
@@ -386,7 +386,7 @@ theorem int_ok (op : IntOp) : EntryOk (intE op) := by
   rw [hform] at htot ⊢
   exact dyn_bind hp ⟨_, htot⟩
 
-theorem isint_ok : EntryOk isintE := EntryOk.simple fun cargs har _ => by
+theorem isint_ok : EntryOkV isintE := EntryOkV.simple fun cargs har _ => by
   match cargs, har with
   | [a], _ =>
     refine ⟨_, ⟨rfl, fun ctx vals h => ?_⟩, fun _ a r hc => ?_⟩
@@ -394,7 +394,7 @@ theorem isint_ok : EntryOk isintE := EntryOk.simple fun cargs har _ => by
       rw [Comp.bind_eq, run_bind_ok h0]; rfl
     · cases hc; exact ⟨_, rfl⟩
 
-theorem expbucket_ok : EntryOk expbucketE := EntryOk.simple fun cargs har _ => by
+theorem expbucket_ok : EntryOkV expbucketE := EntryOkV.simple fun cargs har _ => by
   match cargs, har with
   | [a], _ =>
     refine ⟨_, ⟨rfl, fun ctx vals h => ?_⟩, fun _ a r hc => ?_⟩
@@ -404,8 +404,8 @@ theorem expbucket_ok : EntryOk expbucketE := EntryOk.simple fun cargs har _ => b
       cases atoi v <;> rfl
     · cases hc; exact ⟨_, rfl⟩
 
-theorem litInt_den {sem : Sem} {D : C09.Expr → Bool} {c : Stage} {a : C09.Expr} {p : Int → Bool}
-    (hden : Den sem D c a) (h : litInt p a = true) :
+theorem litInt_den {val : Val} {D : C09.Expr → Bool} {c : Stage} {a : C09.Expr} {p : Int → Bool}
+    (hden : DenV val D c a) (h : litInt p a = true) :
     ∃ (s : List Char) (n : Int), a = .lit s ∧ c = .ret (utf8 s) ∧ atoi (utf8 s) = some n ∧ p n = true ∧
       evalStageInt c = .ok (some n) := by
   cases a with
@@ -421,8 +421,8 @@ theorem litInt_den {sem : Sem} {D : C09.Expr → Bool} {c : Stage} {a : C09.Expr
   | key k => cases h
   | call f args => cases h
 
-theorem bucket_ok (render : Int → Int → Bytes) : EntryOk (bucketE render) := by
-  intro sem D args cargs hden har hpre
+theorem bucket_ok (render : Int → Int → Bytes) : EntryOkV (bucketE render) := by
+  intro val D args cargs hden har hpre
   obtain ⟨a0, a1, rfl⟩ := len2 (l := args) (by simpa [bucketE] using har)
   obtain ⟨c0, c1, rfl⟩ := len2 (l := cargs) (by rw [hden.length]; rfl)
   · simp only [bucketE, bucketPre] at hpre
@@ -445,8 +445,8 @@ theorem bucket_ok (render : Int → Int → Bytes) : EntryOk (bucketE render) :=
     obtain ⟨vals, hv⟩ := total_vals emptyCtx [c0, c1] hden.total
     exact ⟨_, hrun emptyCtx vals hv⟩
 
-theorem clamp_ok : EntryOk clampE := by
-  intro sem D args cargs hden har hpre
+theorem clamp_ok : EntryOkV clampE := by
+  intro val D args cargs hden har hpre
   obtain ⟨a0, a1, a2, rfl⟩ := len3 (l := args) (by simpa [clampE] using har)
   obtain ⟨c0, c1, c2, rfl⟩ := len3 (l := cargs) (by rw [hden.length]; rfl)
   · simp only [clampE, clampPre, Bool.and_eq_true] at hpre
@@ -475,14 +475,14 @@ end FA
 namespace FF
 open Funcs.Float
 
-theorem isnum_ok : EntryOk isnumE := EntryOk.simple fun cargs har _ => by
+theorem isnum_ok : EntryOkV isnumE := EntryOkV.simple fun cargs har _ => by
   obtain ⟨a, rfl⟩ := len1 (l := cargs) (by simpa [isnumE] using har)
   refine ⟨_, ⟨rfl, fun ctx vals h => ?_⟩, fun _ a r hc => ?_⟩
   · obtain ⟨v, rfl, h0⟩ := map_run_1 h
     rw [Comp.bind_eq, run_bind_ok h0]; rfl
   · cases hc; exact ⟨_, rfl⟩
 
-theorem unary_ok (f : F64 → Bytes) : EntryOk (unaryE f) := EntryOk.simple fun cargs har _ => by
+theorem unary_ok (f : F64 → Bytes) : EntryOkV (unaryE f) := EntryOkV.simple fun cargs har _ => by
   obtain ⟨a, rfl⟩ := len1 (l := cargs) (by simpa [unaryE] using har)
   refine ⟨_, ⟨rfl, fun ctx vals h => ?_⟩, fun _ a r hc => ?_⟩
   · obtain ⟨v, rfl, h0⟩ := map_run_1 h
@@ -491,8 +491,8 @@ theorem unary_ok (f : F64 → Bytes) : EntryOk (unaryE f) := EntryOk.simple fun 
     cases parseF v <;> rfl
   · cases hc; exact ⟨_, rfl⟩
 
-theorem cmpF_ok (test : F64 → F64 → Bool) : EntryOk (cmpFE test) := by
-  intro sem D args cargs hden har hpre
+theorem cmpF_ok (test : F64 → F64 → Bool) : EntryOkV (cmpFE test) := by
+  intro val D args cargs hden har hpre
   obtain ⟨a0, a1, rfl⟩ := len2 (l := args) (by simpa [cmpFE] using har)
   obtain ⟨c0, c1, rfl⟩ := len2 (l := cargs) (by rw [hden.length]; rfl)
   simp only [cmpFE, typedPre, List.all_cons, List.all_nil, Bool.and_true, Bool.and_eq_true] at hpre
@@ -533,8 +533,8 @@ theorem foldRunF_run (op : F64 → F64 → F64) (ctx : Ctx) : ∀ (typed : List 
       | none => rfl
       | some x => exact foldRunF_run op ctx rest vs _ h.2
 
-theorem float_ok (op : F64 → F64 → F64) : EntryOk (floatE op) := by
-  intro sem D args cargs hden har hpre
+theorem float_ok (op : F64 → F64 → F64) : EntryOkV (floatE op) := by
+  intro val D args cargs hden har hpre
   obtain ⟨typed, hty, hruns, hfirst⟩ := mapTyped_den parseF hden hpre
   have hlen : ¬ cargs.length < 2 := by rw [hden.length]; simp only [floatE, decide_eq_true_eq] at har; omega
   have hb : floatHelper op cargs = .ok ⟨some (floatRun op typed), none⟩ := by
@@ -570,21 +570,21 @@ end FF
 namespace FS
 open Funcs.Strings Funcs.Misc
 
-theorem len_ok : EntryOk lenE := EntryOk.simple fun cargs har _ => by
+theorem len_ok : EntryOkV lenE := EntryOkV.simple fun cargs har _ => by
   obtain ⟨a, rfl⟩ := len1 (l := cargs) (by simpa [lenE] using har)
   refine ⟨_, ⟨rfl, fun ctx vals h => ?_⟩, fun _ a r hc => ?_⟩
   · obtain ⟨v, rfl, h0⟩ := map_run_1 h
     rw [Comp.bind_eq, run_bind_ok h0]; rfl
   · cases hc; exact ⟨_, rfl⟩
 
-theorem path_ok (f : Bytes → Bytes) : EntryOk (pathE f) := EntryOk.simple fun cargs har _ => by
+theorem path_ok (f : Bytes → Bytes) : EntryOkV (pathE f) := EntryOkV.simple fun cargs har _ => by
   obtain ⟨a, rfl⟩ := len1 (l := cargs) (by simpa [pathE] using har)
   refine ⟨_, ⟨rfl, fun ctx vals h => ?_⟩, fun _ a r hc => ?_⟩
   · obtain ⟨v, rfl, h0⟩ := map_run_1 h
     rw [Comp.bind_eq, run_bind_ok h0]; rfl
   · cases hc; exact ⟨_, rfl⟩
 
-theorem hi_ok : EntryOk hiE := EntryOk.simple fun cargs har _ => by
+theorem hi_ok : EntryOkV hiE := EntryOkV.simple fun cargs har _ => by
   obtain ⟨a, rfl⟩ := len1 (l := cargs) (by simpa [hiE] using har)
   refine ⟨_, ⟨rfl, fun ctx vals h => ?_⟩, fun _ a r hc => ?_⟩
   · obtain ⟨v, rfl, h0⟩ := map_run_1 h
@@ -593,14 +593,14 @@ theorem hi_ok : EntryOk hiE := EntryOk.simple fun cargs har _ => by
     cases atoi v <;> rfl
   · cases hc; exact ⟨_, rfl⟩
 
-theorem test_ok (test : Bytes → Bytes → Bool) : EntryOk (testE test) := EntryOk.simple fun cargs har _ => by
+theorem test_ok (test : Bytes → Bytes → Bool) : EntryOkV (testE test) := EntryOkV.simple fun cargs har _ => by
   obtain ⟨a, b, rfl⟩ := len2 (l := cargs) (by simpa [testE] using har)
   refine ⟨_, ⟨rfl, fun ctx vals h => ?_⟩, fun _ a r hc => ?_⟩
   · obtain ⟨v, w, rfl, h0, h1⟩ := map_run_2 h
     rw [Comp.bind_eq, run_bind_ok h0, Comp.bind_eq, run_bind_ok h1]; rfl
   · cases hc; exact ⟨_, rfl⟩
 
-theorem select_ok : EntryOk selectE := EntryOk.simple fun cargs har _ => by
+theorem select_ok : EntryOkV selectE := EntryOkV.simple fun cargs har _ => by
   obtain ⟨a, b, rfl⟩ := len2 (l := cargs) (by simpa [selectE] using har)
   refine ⟨_, ⟨rfl, fun ctx vals h => ?_⟩, fun _ a r hc => ?_⟩
   · obtain ⟨v, w, rfl, h0, h1⟩ := map_run_2 h
@@ -609,7 +609,7 @@ theorem select_ok : EntryOk selectE := EntryOk.simple fun cargs har _ => by
     cases atoi w <;> rfl
   · cases hc; exact ⟨_, rfl⟩
 
-theorem substr_ok : EntryOk substrE := EntryOk.simple fun cargs har _ => by
+theorem substr_ok : EntryOkV substrE := EntryOkV.simple fun cargs har _ => by
   obtain ⟨a, b, c, rfl⟩ := len3 (l := cargs) (by simpa [substrE] using har)
   refine ⟨_, ⟨rfl, fun ctx vals h => ?_⟩, fun _ a r hc => ?_⟩
   · obtain ⟨v, w, x, rfl, h0, h1, h2⟩ := map_run_3 h
@@ -640,7 +640,7 @@ theorem joinRun_run (d : Bytes) (ctx : Ctx) : ∀ (cargs : List Stage) (vals : L
     rw [joinRun, joinRunSem, Comp.bind_eq, run_bind_ok h0, Comp.bind_eq, run_bind_ok (joinRun_run d ctx rest vs hr)]
     rfl
 
-theorem join_ok (d : Bytes) : EntryOk (joinE d) := EntryOk.simple fun cargs har _ => by
+theorem join_ok (d : Bytes) : EntryOkV (joinE d) := EntryOkV.simple fun cargs har _ => by
   match cargs, har with
   | [a], _ =>
     refine ⟨a, ⟨rfl, fun ctx vals h => ?_⟩, fun _ a' r hc => ?_⟩
@@ -662,7 +662,7 @@ theorem csvRun_run (ctx : Ctx) : ∀ (cargs : List Stage) (vals acc : List Bytes
     rw [csvRun, Comp.bind_eq, run_bind_ok h0, csvRun_run ctx rest vs _ hr]
     simp
 
-theorem csv_ok : EntryOk csvE := EntryOk.simple fun cargs har _ => by
+theorem csv_ok : EntryOkV csvE := EntryOkV.simple fun cargs har _ => by
   match cargs, har with
   | a :: rest, _ =>
     refine ⟨csvRun (a :: rest) [], ⟨rfl, fun ctx vals h => ?_⟩, fun _ a' r hc => ?_⟩
@@ -676,15 +676,15 @@ end FS
 namespace FR
 open Funcs.Range Rare.C17
 
-theorem alen_ok : EntryOk alenE := EntryOk.simple fun cargs har _ => by
+theorem alen_ok : EntryOkV alenE := EntryOkV.simple fun cargs har _ => by
   obtain ⟨a, rfl⟩ := len1 (l := cargs) (by simpa [alenE] using har)
   refine ⟨lenStage a, ⟨rfl, fun ctx vals h => ?_⟩, fun _ a r hc => ?_⟩
   · obtain ⟨v, rfl, h0⟩ := map_run_1 h
     exact len_spec_wrapped ctx a v h0
   · cases hc; exact ⟨_, rfl⟩
 
-theorem optLit_den {p : Bytes → Bool} {sem : Sem} {D : C09.Expr → Bool} {ev : C09.Expr → Bytes} {args : List C09.Expr}
-    {cargs : List Stage} (hden : DenArgs sem D cargs args) (h : optLit p ev D args = true) :
+theorem optLit_den {p : Bytes → Bool} {val : Val} {D : C09.Expr → Bool} {ev : C09.Expr → Bytes} {args : List C09.Expr}
+    {cargs : List Stage} (hden : DenArgsV val D cargs args) (h : optLit p ev D args = true) :
     (∃ c0, cargs = [c0]) ∨ (∃ c0 s, cargs = [c0, .ret (utf8 s)] ∧ p (utf8 s) = true) := by
   match args, cargs, hden, h with
   | [a0], [c0], _, _ => exact Or.inl ⟨c0, rfl⟩
@@ -693,11 +693,11 @@ theorem optLit_den {p : Bytes → Bool} {sem : Sem} {D : C09.Expr → Bool} {ev 
 
 theorem probe_ret (v : Bytes) : (Comp.ret v : Stage).probe = .ok (v, true) := rfl
 
-theorem split_ok : EntryOk splitE := by
-  intro sem D args cargs hden har hpre
+theorem split_ok : EntryOkV splitE := by
+  intro val D args cargs hden har hpre
   have hsp : (ascii " ") ≠ [] := by decide +kernel
   have hspl : (ascii " ").length ≠ 0 := by decide +kernel
-  rcases optLit_den (p := fun d => !d.isEmpty) (ev := evalTree (envC sem emptyCtx)) hden hpre with ⟨c0, rfl⟩ | ⟨c0, s, rfl, hp⟩
+  rcases optLit_den (p := fun d => !d.isEmpty) (ev := (fun a => val a emptyCtx)) hden hpre with ⟨c0, rfl⟩ | ⟨c0, s, rfl, hp⟩
   · have hrun : ∀ (ctx : Ctx) (vals : List Bytes), [c0].map (·.run ctx) = vals.map .ok →
         (splitStage (ascii " ") c0).run ctx = .ok (splitSem vals) := by
       intro ctx vals h
@@ -722,9 +722,9 @@ theorem split_ok : EntryOk splitE := by
     obtain ⟨vals, hv⟩ := total_vals emptyCtx _ hden.total
     exact ⟨_, hrun emptyCtx vals hv⟩
 
-theorem ajoin_ok : EntryOk ajoinE := by
-  intro sem D args cargs hden har hpre
-  rcases optLit_den (p := fun _ => true) (ev := evalTree (envC sem emptyCtx)) hden hpre with ⟨c0, rfl⟩ | ⟨c0, s, rfl, _⟩
+theorem ajoin_ok : EntryOkV ajoinE := by
+  intro val D args cargs hden har hpre
+  rcases optLit_den (p := fun _ => true) (ev := (fun a => val a emptyCtx)) hden hpre with ⟨c0, rfl⟩ | ⟨c0, s, rfl, _⟩
   · have hrun : ∀ (ctx : Ctx) (vals : List Bytes), [c0].map (·.run ctx) = vals.map .ok →
         (joinStage (ascii " ") c0).run ctx = .ok (ajoinSem vals) := by
       intro ctx vals h
@@ -747,8 +747,8 @@ theorem ajoin_ok : EntryOk ajoinE := by
     obtain ⟨vals, hv⟩ := total_vals emptyCtx _ hden.total
     exact ⟨_, hrun emptyCtx vals hv⟩
 
-theorem in_ok : EntryOk inE := by
-  intro sem D args cargs hden har hpre
+theorem in_ok : EntryOkV inE := by
+  intro val D args cargs hden har hpre
   match args, cargs, hden, hpre with
   | [a0, .lit s], [c0, c1], hden, _ =>
     have hc1 : c1 = .ret (utf8 s) := hden.2.1.lit s rfl
@@ -767,14 +767,403 @@ theorem in_ok : EntryOk inE := by
 
 end FR
 
+/-! ### round 2: `@select @slice @range`, `upper lower repeat lookup haskey`, `round percent`, the unit helpers -/
+namespace FR
+open Funcs.Range Rare.C17
+
+theorem aselect_ok : EntryOkV aselectE := by
+  intro val D args cargs hden har hpre
+  obtain ⟨a0, a1, rfl⟩ := len2 (l := args) (by simpa [aselectE] using har)
+  obtain ⟨c0, c1, rfl⟩ := len2 (l := cargs) (by rw [hden.length]; rfl)
+  simp only [aselectE, aselectPre] at hpre
+  obtain ⟨s, n, rfl, hc1, hn, _, hev⟩ := FA.litInt_den hden.2.1 hpre
+  have hrun : ∀ (ctx : Ctx) (vals : List Bytes), [c0, c1].map (·.run ctx) = vals.map .ok →
+      (selectStage n c0).run ctx = .ok (aselectSem vals) := by
+    intro ctx vals h
+    obtain ⟨v0, v1, rfl, h0, h1⟩ := map_run_2 h
+    rw [hc1] at h1
+    simp only [Comp.run, Except.ok.injEq] at h1
+    subst h1
+    rw [(select_spec_wrapped ctx c0 c1 v0 n hev h0).2]
+    simp only [aselectSem, hn]
+  refine ⟨_, ⟨by simp only [aselectE, kfArraySelect, hev]; rfl, hrun⟩, fun _ => ?_⟩
+  refine dynFirst_of_startsWith (fun a r hc => by cases hc; exact ⟨_, rfl⟩) ?_
+  obtain ⟨vals, hv⟩ := total_vals emptyCtx [c0, c1] hden.total
+  exact ⟨_, hrun emptyCtx vals hv⟩
+
+theorem aslice_ok : EntryOkV asliceE := by
+  intro val D args cargs hden har hpre
+  match args, cargs, hden, hpre with
+  | [a0, a1], [c0, c1], hden, hpre =>
+    simp only [asliceE, aslicePre] at hpre
+    obtain ⟨s, n, rfl, hc1, hn, _, hev⟩ := FA.litInt_den hden.2.1 hpre
+    have hsp := fun ctx v0 h0 => slice_spec_wrapped ctx c0 c1 [] v0 n (-1) (by simp) hev rfl h0
+    have hrun : ∀ (ctx : Ctx) (vals : List Bytes), [c0, c1].map (·.run ctx) = vals.map .ok →
+        (sliceStage n (-1) c0).run ctx = .ok (asliceSem vals) := by
+      intro ctx vals h
+      obtain ⟨v0, v1, rfl, h0, h1⟩ := map_run_2 h
+      rw [hc1] at h1
+      simp only [Comp.run, Except.ok.injEq] at h1
+      subst h1
+      rw [(hsp ctx v0 h0).2]
+      simp only [asliceSem, hn]
+    obtain ⟨vals, hv⟩ := total_vals emptyCtx [c0, c1] hden.total
+    obtain ⟨v0, v1, rfl, h0, _⟩ := map_run_2 hv
+    refine ⟨_, ⟨(hsp emptyCtx v0 h0).1, hrun⟩, fun _ => ?_⟩
+    refine dynFirst_of_startsWith (fun a r hc => by cases hc; exact ⟨_, rfl⟩) ?_
+    exact ⟨_, hrun emptyCtx _ hv⟩
+  | [a0, a1, a2], [c0, c1, c2], hden, hpre =>
+    simp only [asliceE, aslicePre, Bool.and_eq_true] at hpre
+    obtain ⟨s, n, rfl, hc1, hn, _, hev⟩ := FA.litInt_den hden.2.1 hpre.1
+    obtain ⟨s2, n2, rfl, hc2, hn2, _, hev2⟩ := FA.litInt_den hden.2.2.1 hpre.2
+    have hsp := fun ctx v0 h0 => slice_spec_wrapped ctx c0 c1 [c2] v0 n n2 (by simp) hev hev2 h0
+    have hrun : ∀ (ctx : Ctx) (vals : List Bytes), [c0, c1, c2].map (·.run ctx) = vals.map .ok →
+        (sliceStage n n2 c0).run ctx = .ok (asliceSem vals) := by
+      intro ctx vals h
+      obtain ⟨v0, v1, v2, rfl, h0, h1, h2⟩ := map_run_3 h
+      rw [hc1] at h1; rw [hc2] at h2
+      simp only [Comp.run, Except.ok.injEq] at h1 h2
+      subst h1; subst h2
+      rw [(hsp ctx v0 h0).2]
+      simp only [asliceSem, hn, hn2]
+    obtain ⟨vals, hv⟩ := total_vals emptyCtx [c0, c1, c2] hden.total
+    obtain ⟨v0, v1, v2, rfl, h0, _, _⟩ := map_run_3 hv
+    refine ⟨_, ⟨(hsp emptyCtx v0 h0).1, hrun⟩, fun _ => ?_⟩
+    refine dynFirst_of_startsWith (fun a r hc => by cases hc; exact ⟨_, rfl⟩) ?_
+    exact ⟨_, hrun emptyCtx _ hv⟩
+
+/-- `rangeStage` on argument stages that return: the closed form of `C17.range_spec_closed` plus the
+    `<BAD-TYPE>` cases. -/
+theorem rangeStage_run (ctx : Ctx) (sa sb sc : Stage) (a b c : Bytes)
+    (ha : sa.run ctx = .ok a) (hb : sb.run ctx = .ok b) (hc : sc.run ctx = .ok c) :
+    (rangeStage sa sb sc).run ctx = .ok (rangeVal a b c) := by
+  unfold rangeVal
+  cases pa : atoi a with
+  | none => exact range_bad_type ctx sa sb sc a ha pa
+  | some start =>
+    cases pb : atoi b with
+    | none =>
+      unfold rangeStage
+      rw [Rare.C17.run_bind_ok ctx _ _ _ ha]; simp only [pa]
+      rw [Rare.C17.run_bind_ok ctx _ _ _ hb]; simp only [pb]; rfl
+    | some stop =>
+      cases pc : atoi c with
+      | none =>
+        unfold rangeStage
+        rw [Rare.C17.run_bind_ok ctx _ _ _ ha]; simp only [pa]
+        rw [Rare.C17.run_bind_ok ctx _ _ _ hb]; simp only [pb]
+        rw [Rare.C17.run_bind_ok ctx _ _ _ hc]; simp only [pc]; rfl
+      | some incr => exact range_spec_closed ctx sa sb sc a b c start stop incr ha hb hc pa pb pc
+
+theorem arange_ok : EntryOkV arangeE := EntryOkV.simple fun cargs har htot => by
+  have hlit : ∀ (ctx : Ctx) (t : String), (Stage.lit (ascii t)).run ctx = .ok (ascii t) := fun _ _ => rfl
+  match cargs, har with
+  | [c0], _ =>
+    refine ⟨_, ⟨rfl, fun ctx vals h => ?_⟩, fun hf => by simp [arangeE] at hf⟩
+    obtain ⟨v, rfl, h0⟩ := map_run_1 h
+    exact rangeStage_run ctx _ _ _ _ _ _ (hlit ctx "0") h0 (hlit ctx "1")
+  | [c0, c1], _ =>
+    refine ⟨_, ⟨rfl, fun ctx vals h => ?_⟩, fun hf => by simp [arangeE] at hf⟩
+    obtain ⟨v, w, rfl, h0, h1⟩ := map_run_2 h
+    exact rangeStage_run ctx _ _ _ _ _ _ h0 h1 (hlit ctx "1")
+  | [c0, c1, c2], _ =>
+    refine ⟨_, ⟨rfl, fun ctx vals h => ?_⟩, fun hf => by simp [arangeE] at hf⟩
+    obtain ⟨v, w, x, rfl, h0, h1, h2⟩ := map_run_3 h
+    exact rangeStage_run ctx _ _ _ _ _ _ h0 h1 h2
+
+end FR
+
+namespace FS
+open Funcs.Strings Funcs.Misc
+
+theorem case_ok (f : UInt8 → UInt8) : EntryOkV (caseE f) := by
+  intro val D args cargs hden har hpre
+  match args, cargs, hden, hpre with
+  | [.lit s], [c0], hden, hpre =>
+    have hc : c0 = .ret (utf8 s) := hden.1.lit s rfl
+    subst hc
+    have hp : (utf8 s).all (· < 128) = true := hpre
+    have hrun : ∀ (ctx : Ctx) (vals : List Bytes), [(.ret (utf8 s) : Stage)].map (·.run ctx) = vals.map .ok →
+        ((.ret (utf8 s) : Stage).bind fun v =>
+          if v.all (· < 128) then pure (v.map f) else .panic "unmodelled:non-ascii-case").run ctx =
+          .ok (mapSem (fun v => v.map f) vals) := by
+      intro ctx vals h
+      obtain ⟨v, rfl, h0⟩ := map_run_1 h
+      simp only [Comp.run, Except.ok.injEq] at h0
+      subst h0
+      simp only [Comp.bind, hp, if_true, mapSem]; rfl
+    refine ⟨_, ⟨rfl, hrun⟩, fun _ => ?_⟩
+    refine dynFirst_of_startsWith (fun a r hc => by cases hc; exact ⟨_, rfl⟩) ?_
+    exact ⟨_, hrun emptyCtx [utf8 s] rfl⟩
+
+theorem repeat_ok : EntryOkV repeatE := by
+  intro val D args cargs hden har hpre
+  match args, cargs, hden, hpre with
+  | [.lit s, a1], [c0, c1], hden, _ =>
+    have hc : c0 = .ret (utf8 s) := hden.1.lit s rfl
+    subst hc
+    refine ⟨_, ⟨by simp only [repeatE, kfRepeat, FR.probe_ret]; rfl, fun ctx vals h => ?_⟩, fun hf => by simp [repeatE] at hf⟩
+    obtain ⟨v0, v1, rfl, h0, h1⟩ := map_run_2 h
+    simp only [Comp.run, Except.ok.injEq] at h0
+    subst h0
+    rw [Comp.bind_eq, run_bind_ok h1]
+    simp only [repeatE, repeatSem]
+    cases atoi v1 with
+    | none => rfl
+    | some count =>
+      simp only []
+      split
+      · rfl
+      · split <;> rfl
+
+theorem lookup_ok (render : Option Bytes → Bytes) : EntryOkV (lookupE render) := by
+  intro val D args cargs hden har hpre
+  match args, cargs, hden, hpre with
+  | [a0, .lit s], [c0, c1], hden, _ =>
+    have hc : c1 = .ret (utf8 s) := hden.2.1.lit s rfl
+    subst hc
+    have hrun : ∀ (ctx : Ctx) (vals : List Bytes), [c0, .ret (utf8 s)].map (·.run ctx) = vals.map .ok →
+        (c0.bind fun key => pure (render (tableGet (buildLookupTable (utf8 s) []) key))).run ctx =
+          .ok (lookupSem render vals) := by
+      intro ctx vals h
+      obtain ⟨v0, v1, rfl, h0, h1⟩ := map_run_2 h
+      simp only [Comp.run, Except.ok.injEq] at h1
+      subst h1
+      rw [run_bind_ok h0]; rfl
+    refine ⟨_, ⟨by simp [lookupE, lookupBuilder, FR.probe_ret, evalStageIndexOrDefault]; rfl, hrun⟩, fun _ => ?_⟩
+    refine dynFirst_of_startsWith (fun a r hc => by cases hc; exact ⟨_, rfl⟩) ?_
+    obtain ⟨vals, hv⟩ := total_vals emptyCtx _ hden.total
+    exact ⟨_, hrun emptyCtx vals hv⟩
+  | [a0, .lit s, .lit p], [c0, c1, c2], hden, _ =>
+    have hc : c1 = .ret (utf8 s) := hden.2.1.lit s rfl
+    have hc2 : c2 = .ret (utf8 p) := hden.2.2.1.lit p rfl
+    subst hc; subst hc2
+    have hrun : ∀ (ctx : Ctx) (vals : List Bytes), [c0, .ret (utf8 s), .ret (utf8 p)].map (·.run ctx) = vals.map .ok →
+        (c0.bind fun key => pure (render (tableGet (buildLookupTable (utf8 s) (utf8 p)) key))).run ctx =
+          .ok (lookupSem render vals) := by
+      intro ctx vals h
+      obtain ⟨v0, v1, v2, rfl, h0, h1, h2⟩ := map_run_3 h
+      simp only [Comp.run, Except.ok.injEq] at h1 h2
+      subst h1; subst h2
+      rw [run_bind_ok h0]; rfl
+    refine ⟨_, ⟨by simp [lookupE, lookupBuilder, FR.probe_ret, evalStageIndexOrDefault]; rfl, hrun⟩, fun _ => ?_⟩
+    refine dynFirst_of_startsWith (fun a r hc => by cases hc; exact ⟨_, rfl⟩) ?_
+    obtain ⟨vals, hv⟩ := total_vals emptyCtx _ hden.total
+    exact ⟨_, hrun emptyCtx vals hv⟩
+
+end FS
+
+namespace FF
+open Funcs.Float
+
+/-- The optional constant precision argument as the builders see it (`EvalArgInt(args, 1, dflt)`). -/
+theorem prec_den {val : Val} {D : C09.Expr → Bool} {ev : C09.Expr → Bytes} {args : List C09.Expr} {cargs : List Stage}
+    (dflt : Int) (hden : DenArgsV val D cargs args) (h : precPre ev D args = true) :
+    (∃ c0, cargs = [c0] ∧ evalArgInt cargs 1 dflt = .ok (some dflt)) ∨
+    (∃ c0 s n, cargs = [c0, .ret (utf8 s)] ∧ atoi (utf8 s) = some n ∧ n ≤ maxPrecision ∧
+      evalArgInt cargs 1 dflt = .ok (some n)) := by
+  match args, cargs, hden, h with
+  | [a0], [c0], _, _ => exact Or.inl ⟨c0, rfl, rfl⟩
+  | [a0, a1], [c0, c1], hden, h =>
+    simp only [precPre] at h
+    obtain ⟨s, n, rfl, hc1, hn, hp, hev⟩ := FA.litInt_den hden.2.1 h
+    subst hc1
+    exact Or.inr ⟨c0, s, n, rfl, hn, by simpa using hp, hev⟩
+
+theorem round_ok : EntryOkV roundE := by
+  intro val D args cargs hden har hpre
+  have hfin : ∀ (c0 : Stage) (precision : Int) (cs : List Stage) (sem : List Bytes → Bytes),
+      (∀ (ctx : Ctx) (vals : List Bytes), (c0 :: cs).map (·.run ctx) = vals.map .ok → ∃ v, c0.run ctx = .ok v ∧
+        sem vals = roundVal v precision) → (∀ a ∈ c0 :: cs, Total a) →
+      (∀ (ctx : Ctx) (vals : List Bytes), (c0 :: cs).map (·.run ctx) = vals.map .ok →
+        (c0.bind fun v => match parseF v with
+          | none => pure ErrorNum
+          | some x => pure (F64.format x precision)).run ctx = .ok (sem vals)) ∧
+      DynFirst (c0.bind fun v => match parseF v with
+          | none => pure ErrorNum
+          | some x => pure (F64.format x precision)) (c0 :: cs) := by
+    intro c0 precision cs sem hs htot
+    have hrun : ∀ (ctx : Ctx) (vals : List Bytes), (c0 :: cs).map (·.run ctx) = vals.map .ok →
+        (c0.bind fun v => match parseF v with
+          | none => pure ErrorNum
+          | some x => pure (F64.format x precision)).run ctx = .ok (sem vals) := by
+      intro ctx vals h
+      obtain ⟨v, h0, hsv⟩ := hs ctx vals h
+      rw [run_bind_ok h0, hsv, roundVal]
+      cases parseF v <;> rfl
+    refine ⟨hrun, dynFirst_of_startsWith (fun a r hc => by cases hc; exact ⟨_, rfl⟩) ?_⟩
+    obtain ⟨vals, hv⟩ := total_vals emptyCtx _ htot
+    exact ⟨_, hrun emptyCtx vals hv⟩
+  rcases prec_den (ev := fun a => val a emptyCtx) 0 hden hpre with ⟨c0, rfl, hev⟩ | ⟨c0, s, n, rfl, hn, hle, hev⟩
+  · obtain ⟨h1, h2⟩ := hfin c0 0 [] roundSem (fun ctx vals h => by
+      obtain ⟨v, rfl, h0⟩ := map_run_1 h; exact ⟨v, h0, rfl⟩) hden.total
+    refine ⟨_, ⟨?_, h1⟩, fun _ => h2⟩
+    have : ¬ ((0 : Int) > maxPrecision) := by decide
+    simp only [roundE, kfRound, hev, this, if_false]; rfl
+  · obtain ⟨h1, h2⟩ := hfin c0 n [.ret (utf8 s)] roundSem (fun ctx vals h => by
+      obtain ⟨v, w, rfl, h0, hw⟩ := map_run_2 h
+      simp only [Comp.run, Except.ok.injEq] at hw
+      subst hw
+      exact ⟨v, h0, by simp only [roundSem, hn]⟩) hden.total
+    refine ⟨_, ⟨?_, h1⟩, fun _ => h2⟩
+    have : ¬ (n > maxPrecision) := by omega
+    simp only [roundE, kfRound, hev, this, if_false]; rfl
+
+theorem unit_ok (unsigned : Bool) (step : Int) (delim : Bytes) (units : List String) :
+    EntryOkV (unitE unsigned step delim units) := by
+  intro val D args cargs hden har hpre
+  have hfin : ∀ (c0 : Stage) (precision : Int) (cs : List Stage),
+      (∀ (ctx : Ctx) (vals : List Bytes), (c0 :: cs).map (·.run ctx) = vals.map .ok → ∃ v, c0.run ctx = .ok v ∧
+        unitSem unsigned step delim units vals = unitVal unsigned step delim units v precision) → (∀ a ∈ c0 :: cs, Total a) →
+      (∀ (ctx : Ctx) (vals : List Bytes), (c0 :: cs).map (·.run ctx) = vals.map .ok →
+        (c0.bind fun v =>
+          match (if unsigned then (atou v).map (fun n => wrap64 (Int.ofNat n)) else atoi v : Option Int) with
+          | none => pure ErrorNum
+          | some n => pure (unitize n step precision delim units)).run ctx =
+          .ok (unitSem unsigned step delim units vals)) ∧
+      DynFirst (c0.bind fun v =>
+          match (if unsigned then (atou v).map (fun n => wrap64 (Int.ofNat n)) else atoi v : Option Int) with
+          | none => pure ErrorNum
+          | some n => pure (unitize n step precision delim units)) (c0 :: cs) := by
+    intro c0 precision cs hs htot
+    have hrun : ∀ (ctx : Ctx) (vals : List Bytes), (c0 :: cs).map (·.run ctx) = vals.map .ok →
+        (c0.bind fun v =>
+          match (if unsigned then (atou v).map (fun n => wrap64 (Int.ofNat n)) else atoi v : Option Int) with
+          | none => pure ErrorNum
+          | some n => pure (unitize n step precision delim units)).run ctx =
+          .ok (unitSem unsigned step delim units vals) := by
+      intro ctx vals h
+      obtain ⟨v, h0, hsv⟩ := hs ctx vals h
+      rw [run_bind_ok h0, hsv, unitVal]
+      cases (if unsigned then (atou v).map (fun n => wrap64 (Int.ofNat n)) else atoi v : Option Int) <;> rfl
+    refine ⟨hrun, dynFirst_of_startsWith (fun a r hc => by cases hc; exact ⟨_, rfl⟩) ?_⟩
+    obtain ⟨vals, hv⟩ := total_vals emptyCtx _ htot
+    exact ⟨_, hrun emptyCtx vals hv⟩
+  rcases prec_den (ev := fun a => val a emptyCtx) 0 hden hpre with ⟨c0, rfl, hev⟩ | ⟨c0, s, n, rfl, hn, hle, hev⟩
+  · obtain ⟨h1, h2⟩ := hfin c0 0 [] (fun ctx vals h => by
+      obtain ⟨v, rfl, h0⟩ := map_run_1 h; exact ⟨v, h0, rfl⟩) hden.total
+    refine ⟨_, ⟨?_, h1⟩, fun _ => h2⟩
+    have : ¬ ((0 : Int) > maxPrecision) := by decide
+    simp only [unitE, unitHelper, hev, this, if_false]; rfl
+  · obtain ⟨h1, h2⟩ := hfin c0 n [.ret (utf8 s)] (fun ctx vals h => by
+      obtain ⟨v, w, rfl, h0, hw⟩ := map_run_2 h
+      simp only [Comp.run, Except.ok.injEq] at hw
+      subst hw
+      exact ⟨v, h0, by simp only [unitSem, hn]⟩) hden.total
+    refine ⟨_, ⟨?_, h1⟩, fun _ => h2⟩
+    have : ¬ (n > maxPrecision) := by omega
+    simp only [unitE, unitHelper, hev, this, if_false]; rfl
+
+/-- The stage `kfPercent` returns, by name. -/
+def percentStage (smin smax : Comp (Option F64)) (a0 : Stage) (decimals : Int) : Stage :=
+  smin.bind fun mn => match mn with
+    | none => pure ErrorNum
+    | some min => smax.bind fun mx => match mx with
+      | none => pure ErrorNum
+      | some max => a0.bind fun v => match parseF v with
+        | none => pure ErrorNum
+        | some val => pure (percentStr val min max decimals)
+
+theorem percentStage_run (ctx : Ctx) (smin smax : Comp (Option F64)) (a0 : Stage) (decimals : Int)
+    (omn omx : Option F64) (v : Bytes) (h1 : smin.run ctx = .ok omn) (h2 : smax.run ctx = .ok omx)
+    (h0 : a0.run ctx = .ok v) :
+    (percentStage smin smax a0 decimals).run ctx = .ok (percentVal v omn omx decimals) := by
+  unfold percentStage percentVal
+  rw [run_bind_ok h1]
+  cases omn with
+  | none => rfl
+  | some min =>
+    simp only []
+    rw [run_bind_ok h2]
+    cases omx with
+    | none => rfl
+    | some max =>
+      simp only []
+      rw [run_bind_ok h0]
+      cases parseF v <;> rfl
+
+theorem percent_ok : EntryOkV percentE := by
+  intro val D args cargs hden har hpre
+  have hz : ∀ ctx : Ctx, (Comp.ret (some (F64.zero false)) : Comp (Option F64)).run ctx = .ok (some (F64.zero false)) :=
+    fun _ => rfl
+  have ho : ∀ ctx : Ctx, (Comp.ret (some F64.one) : Comp (Option F64)).run ctx = .ok (some F64.one) := fun _ => rfl
+  match args, cargs, hden, hpre, har with
+  | _ :: _ :: _ :: _ :: _ :: _, _, _, _, har => simp [percentE] at har
+  | [a0], [c0], hden, _, _ =>
+    refine ⟨percentStage (.ret (some (F64.zero false))) (.ret (some F64.one)) c0 1, ⟨?_, fun ctx vals h => ?_⟩,
+      fun hf => by simp [percentE] at hf⟩
+    · simp only [percentE, kfPercent, evalArgInt]; rfl
+    · obtain ⟨v, rfl, h0⟩ := map_run_1 h
+      exact percentStage_run ctx _ _ _ _ _ _ _ (hz ctx) (ho ctx) h0
+  | [a0, a1], [c0, c1], hden, hpre, _ =>
+    simp only [percentE, percentPre, precLit] at hpre
+    obtain ⟨s, n, rfl, hc1, hn, hp, hev⟩ := FA.litInt_den hden.2.1 hpre
+    subst hc1
+    have hle' : n ≤ maxPrecision := by simpa using hp
+    have hle : ¬ (n > maxPrecision) := by omega
+    refine ⟨percentStage (.ret (some (F64.zero false))) (.ret (some F64.one)) c0 n, ⟨?_, fun ctx vals h => ?_⟩,
+      fun hf => by simp [percentE] at hf⟩
+    · have he : evalArgInt [c0, .ret (utf8 s)] 1 1 = .ok (some n) := hev
+      simp only [percentE, kfPercent, he, hle]; rfl
+    · obtain ⟨v, w, rfl, h0, hw⟩ := map_run_2 h
+      simp only [Comp.run, Except.ok.injEq] at hw
+      subst hw
+      rw [percentStage_run ctx _ _ _ _ _ _ _ (hz ctx) (ho ctx) h0]
+      simp only [percentE, percentSem, hn]
+  | [a0, a1, a2], [c0, c1, c2], hden, hpre, _ =>
+    simp only [percentE, percentPre, precLit, Bool.and_eq_true] at hpre
+    obtain ⟨s, n, rfl, hc1, hn, hp, hev⟩ := FA.litInt_den hden.2.1 hpre.1
+    subst hc1
+    obtain ⟨tx, htx, hrx, _⟩ := typed_den parseF hden.2.2.1 hpre.2
+    have hle' : n ≤ maxPrecision := by simpa using hp
+    have hle : ¬ (n > maxPrecision) := by omega
+    refine ⟨percentStage (.ret (some (F64.zero false))) tx c0 n, ⟨?_, fun ctx vals h => ?_⟩,
+      fun hf => by simp [percentE] at hf⟩
+    · have he : evalArgInt [c0, .ret (utf8 s), c2] 1 1 = .ok (some n) := hev
+      simp only [percentE, kfPercent, he, hle, htx]; rfl
+    · obtain ⟨v, w, x, rfl, h0, hw, hx⟩ := map_run_3 h
+      simp only [Comp.run, Except.ok.injEq] at hw
+      subst hw
+      rw [percentStage_run ctx _ _ _ _ _ _ _ (hz ctx) (hrx ctx x hx) h0]
+      simp only [percentE, percentSem, hn]
+  | [a0, a1, a2, a3], [c0, c1, c2, c3], hden, hpre, _ =>
+    simp only [percentE, percentPre, precLit, Bool.and_eq_true] at hpre
+    obtain ⟨s, n, rfl, hc1, hn, hp, hev⟩ := FA.litInt_den hden.2.1 hpre.1.1
+    subst hc1
+    obtain ⟨tn, htn, hrn, _⟩ := typed_den parseF hden.2.2.1 hpre.1.2
+    obtain ⟨tx, htx, hrx, _⟩ := typed_den parseF hden.2.2.2.1 hpre.2
+    have hle' : n ≤ maxPrecision := by simpa using hp
+    have hle : ¬ (n > maxPrecision) := by omega
+    refine ⟨percentStage tn tx c0 n, ⟨?_, fun ctx vals h => ?_⟩, fun hf => by simp [percentE] at hf⟩
+    · have he : evalArgInt [c0, .ret (utf8 s), c2, c3] 1 1 = .ok (some n) := hev
+      simp only [percentE, kfPercent, he, hle, htn, htx]; rfl
+    · rcases vals with _ | ⟨v, _ | ⟨w, _ | ⟨x, _ | ⟨y, _ | ⟨z, r⟩⟩⟩⟩⟩ <;> simp at h
+      obtain ⟨h0, hw, hx, hy⟩ := h
+      simp only [Comp.run, Except.ok.injEq] at hw
+      subst hw
+      rw [percentStage_run ctx _ _ _ _ _ _ _ (hrn ctx x hx) (hrx ctx y hy) h0]
+      simp only [percentE, percentSem, hn]
+
+end FF
+
 /-! ### the fragment -/
+
+/-- The registry hypothesis of an entry for the tree semantics of `Spec/C09.lean` under `sem` (the instance
+    `val = semVal sem` of `EntryOkV`; C10's user functions use it with their own `sem`). -/
+def EntryOk (e : Entry) : Prop :=
+  ∀ (sem : Sem) (D : C09.Expr → Bool) (args : List C09.Expr) (cargs : List Stage), DenArgs sem D cargs args →
+    e.arity args.length = true → e.pre (evalTree (envC sem emptyCtx)) D args = true →
+    ∃ stage, Inst e.builder e.sem cargs stage ∧ (e.first = true → DynFirst stage cargs)
+
+theorem EntryOkV.toSem {e : Entry} (h : EntryOkV e) : EntryOk e :=
+  fun sem D args cargs hden har hpre => h (semVal sem) D args cargs (denArgs_iff.mp hden) har hpre
 
 def AllOk : List (String × Entry) → Prop
   | [] => True
-  | p :: rest => (EntryOk p.2 ∧ lookupTable stdTable p.1 = some p.2.builder) ∧ AllOk rest
+  | p :: rest => (EntryOkV p.2 ∧ lookupTable stdTable p.1 = some p.2.builder) ∧ AllOk rest
 
 theorem allOk_mem : ∀ {l : List (String × Entry)}, AllOk l → ∀ p ∈ l,
-    EntryOk p.2 ∧ lookupTable stdTable p.1 = some p.2.builder
+    EntryOkV p.2 ∧ lookupTable stdTable p.1 = some p.2.builder
   | [], _, p, hp => by cases hp
   | q :: rest, h, p, hp => by
     rcases List.mem_cons.mp hp with rfl | hp
@@ -834,10 +1223,26 @@ theorem fragTable_allOk : AllOk fragTable :=
     ⟨FR.split_ok, rfl⟩,
     ⟨FR.ajoin_ok, rfl⟩,
     ⟨FR.in_ok, rfl⟩,
+    ⟨FR.aselect_ok, rfl⟩,
+    ⟨FR.aslice_ok, rfl⟩,
+    ⟨FR.arange_ok, rfl⟩,
+    ⟨FS.case_ok _, rfl⟩,
+    ⟨FS.case_ok _, rfl⟩,
+    ⟨FS.repeat_ok, rfl⟩,
+    ⟨FS.lookup_ok _, rfl⟩,
+    ⟨FS.lookup_ok _, rfl⟩,
+    ⟨FF.round_ok, rfl⟩,
+    ⟨FF.percent_ok, rfl⟩,
+    ⟨FF.unit_ok _ _ _ _, rfl⟩,
+    ⟨FF.unit_ok _ _ _ _, rfl⟩,
+    ⟨FF.unit_ok _ _ _ _, rfl⟩,
     trivial⟩
 
-theorem fragTable_ok : ∀ p ∈ fragTable, EntryOk p.2 ∧ lookupTable stdTable p.1 = some p.2.builder :=
+theorem fragTable_okV : ∀ p ∈ fragTable, EntryOkV p.2 ∧ lookupTable stdTable p.1 = some p.2.builder :=
   allOk_mem fragTable_allOk
+
+theorem fragTable_ok : ∀ p ∈ fragTable, EntryOk p.2 ∧ lookupTable stdTable p.1 = some p.2.builder :=
+  fun p hp => ⟨(fragTable_okV p hp).1.toSem, (fragTable_okV p hp).2⟩
 
 theorem fragLookup_mem {n : String} {e : Entry} (h : fragLookup n = some e) : (n, e) ∈ fragTable := by
   unfold fragLookup at h
